@@ -183,6 +183,63 @@ Theorem C16_attr_case_zero :
 Proof. exact c16_attr_case_zero. Qed.
 Print Assumptions C16_attr_case_zero.
 
+(* several generator objects alive at once (any number, constructed at any time, with any attribute
+   sets and seeds, used in any interleaving): what object i produces, and the state it ends in, are
+   those of the same object used alone on its own operations *)
+Theorem C16_generators_independent :
+  forall (seed sample : Type) (stream : seed -> nat -> sample) (sched : list (wop seed)) (w : list (gen seed)) i g,
+  nth_error w i = Some g ->
+  let r := run stream (g_width g) (project i sched) (g_state g) in
+  @outputs_of sample i (snd (wrun stream sched w)) = snd r /\
+  nth_error (fst (wrun stream sched w)) i = Some (mkGen (g_hasw g) (g_hasz g) (fst r)).
+Proof. exact @world_independent. Qed.
+Print Assumptions C16_generators_independent.
+
+(* ... also for an object constructed in the middle, after any earlier use of the others *)
+Theorem C16_new_generator_independent :
+  forall (seed sample : Type) (stream : seed -> nat -> sample) (pre rest : list (wop seed)) (w : list (gen seed)) hw hz s,
+  let w1 := fst (wrun stream pre w) in
+  @outputs_of sample (length w1) (snd (wrun stream (WNew hw hz s :: rest) w1)) =
+  snd (run stream (cfg_width hw hz) (project (length w1) rest) (fresh s)).
+Proof. exact @world_new_independent. Qed.
+Print Assumptions C16_new_generator_independent.
+
+Theorem C16_schedule_app :
+  forall (seed sample : Type) (stream : seed -> nat -> sample) (a b : list (wop seed)) (w : list (gen seed)),
+  @wrun seed sample stream (a ++ b) w =
+  let '(w1, o1) := wrun stream a w in let '(w2, o2) := wrun stream b w1 in (w2, o1 ++ o2).
+Proof. exact @wrun_app. Qed.
+Print Assumptions C16_schedule_app.
+
+(* every chunk of object i has the index vector (weights / redshifts attached) iff object i itself
+   was given weights or redshifts *)
+Theorem C16_generator_keeps_attributes :
+  forall (seed sample : Type) (stream : seed -> nat -> sample) (sched : list (wop seed)) (w : list (gen seed)) i g,
+  nth_error w i = Some g ->
+  Forall (Forall (fun c : @chunk sample => length (ch_vecs c) = cfg_width (g_hasw g) (g_hasz g)))
+         (outputs_of i (snd (wrun stream sched w))).
+Proof. exact @world_chunk_width. Qed.
+Print Assumptions C16_generator_keeps_attributes.
+
+(* with one set of attribute flags shared by all objects the statement is false *)
+Theorem C16_shared_flags_refuted :
+  exists (rest : list (wop nat)) hw hz s,
+    outputs_of 0 (snd (wrun_shared (fun sd p => sd + p) (WNew hw hz s :: rest) (false, false) [])) <>
+    snd (run (fun sd p => sd + p) (cfg_width hw hz) (project 0 rest) (fresh s)).
+Proof. exact shared_flags_refuted. Qed.
+Print Assumptions C16_shared_flags_refuted.
+
+Theorem C16_multi_gen_zero :
+  forall hw hz obs evs evs_solo ra0 ra1 dec0 dec1 ras decs weights redshifts pairs,
+  c16_multi_gen hw hz obs evs evs_solo ra0 ra1 dec0 dec1 ras decs weights redshifts pairs = 0 ->
+  Forall (fun o => mo_n o = op_total (mo_ops o) /\ mo_same o = true /\
+                   (op_total (mo_ops o) <> 0 -> mo_w o = hw /\ mo_z o = hz)) obs /\
+  (forall wz, In wz pairs ->
+     exists j, j < length weights /\ j < length redshifts /\
+               (fst wz == nth j weights 0)%Q /\ (snd wz == nth j redshifts 0)%Q).
+Proof. exact c16_multi_gen_zero. Qed.
+Print Assumptions C16_multi_gen_zero.
+
 (* footprint (real numbers) *)
 Open Scope R_scope.
 Theorem C16_window_ra : forall ra0 ra1 u, ra0 <= ra1 -> 0 <= u <= 1 -> ra0 <= ra_of ra0 ra1 u <= ra1.
@@ -256,3 +313,18 @@ Example C16_concrete_nonfinite :
   joint_ok_g (FFin 0) fval_eqb ws zs [(FFin 2, FFin (1#8))] = false /\
   twin_attributes 3 [0; 2; 1] = [(0, 0); (2, 2); (1, 1)].
 Proof. vm_compute. repeat split; reflexivity. Qed.
+
+(* non-vacuity of the several-objects part: three objects (both attributes / none / weights only), the
+   third constructed after the first was used; each produces what it produces alone (object 2 has the
+   seed of object 0 and starts at position 0 of that stream); with shared flags object 0 differs *)
+Example C16_concrete_multi :
+  let stream := fun sd p : nat => sd + p in
+  let sched := [WNew true true 100; WNew false false 7; WOp 0 (Draw 2); WNew true false 100;
+                WOp 1 (Probe 1); WOp 2 (Draw 2); WOp 0 Reseed; WOp 0 (Pass 3 2); WOp 1 (Draw 1)] in
+  let r := wrun stream sched [] in
+  project 0 sched = [Draw 2; Reseed; Pass 3 2] /\
+  outputs_of 0 (snd r) = snd (run stream 3 [Draw 2; Reseed; Pass 3 2] (fresh 100)) /\
+  outputs_of 1 (snd r) = [[mkChunk 1 [[7]; [8]]]; [mkChunk 1 [[9]; [10]]]] /\
+  outputs_of 2 (snd r) = [[mkChunk 2 [[100; 101]; [102; 103]; [104; 105]]]] /\
+  outputs_of 0 (snd (wrun_shared stream sched (false, false) [])) <> outputs_of 0 (snd r).
+Proof. vm_compute. repeat split; try reflexivity. discriminate. Qed.
